@@ -17,6 +17,12 @@ Streams (group -> Coq checker):
                               code below; the model's masks/decoding must reproduce the reference expectation values
   e2e        chk_e2e          collection -> every group -> implementation's suffix -> own-simulator law -> implementation's
                               _process_outcome on every word -> lookup -> expectation of every ORIGINAL observable
+  gce        chk_e2e          uncut preparation circuits WITH RESETS (doubled/tripled, mid-circuit, initial, final, followed only by
+                              multi-qubit gates with the reset qubit as non-first operand, groups that are identity on the reset
+                              qubit) pushed through generate_cutting_experiments(circuit, observables, inf): one subexperiment
+                              per group = preparation + reset clean-up passes + measurement suffix; every subexperiment is
+                              simulated by the harness's simulator, decoded with _process_outcome and the lookup, and each
+                              observable's value is compared with Tr(rho P) of the ORIGINAL circuit
   forced     chk_forced       cases the harness itself found wrong (independent oracle flagged them, or the implementation made a
                               later step impossible); they always fail in Coq so that the run judges and reports them
 `judge` is independent of the Coq model: plain Python restatement of the property text + own numpy simulator.
@@ -43,6 +49,7 @@ from qiskit_addon_cutting.cutting_experiments import (
     _append_measurement_circuit,
 )
 from qiskit_addon_cutting.cutting_reconstruction import _process_outcome
+from qiskit_addon_cutting import generate_cutting_experiments
 
 from common import CaseWriter, Res, Raw, Nc, Zc, Qc, Opt, call_canon, coq
 from circ import CircCtx, coq_circ
@@ -356,6 +363,41 @@ def sim_register_law(branches, n, suffix, reg_bits):
             if any(q in measured for q in qs):
                 raise ValueError("simulator: gate after measurement")
             branches = [sim_apply(psi, n, name, [], qs) for psi in branches]
+    pos = {c: i for i, c in enumerate(reg_bits)}
+    law = {}
+    pr = sum(np.abs(psi) ** 2 for psi in branches)
+    for i, p in enumerate(pr):
+        w = 0
+        for q, c in measured.items():
+            if c in pos and (i >> q) & 1:
+                w |= 1 << pos[c]
+        law[w] = law.get(w, 0.0) + float(p)
+    return sorted(law.items())
+
+
+def sim_circuit_law(n, ops, reg_bits):
+    """Outcome law of the register `reg_bits` for a whole circuit given as [name, params, qubits, clbits] from |0..0>
+    (gates, barriers, resets anywhere; measurements must be terminal for their qubit; unwritten clbits read 0)."""
+    psi = np.zeros(2 ** n, dtype=complex)
+    psi[0] = 1
+    branches = [psi]
+    measured = {}
+    for op in ops:
+        name, params, qs = op[0], op[1], op[2]
+        cs = op[3] if len(op) > 3 else []
+        if name == "measure":
+            if qs[0] in measured:
+                raise ValueError("simulator: qubit measured twice")
+            measured[qs[0]] = cs[0]
+            continue
+        if name == "barrier":
+            continue
+        if any(q in measured for q in qs):
+            raise ValueError(f"simulator: {name} on a qubit that was already measured")
+        if name == "reset":
+            branches = [b for psi in branches for b in sim_reset(psi, qs[0])]
+        else:
+            branches = [sim_apply(psi, n, name, params, qs) for psi in branches]
     pos = {c: i for i, c in enumerate(reg_bits)}
     law = {}
     pr = sum(np.abs(psi) ** 2 for psi in branches)
@@ -721,6 +763,114 @@ def exec_e2e(case):
     return case
 
 
+def gen_reset_prep(rng, nq):
+    """A preparation with resets in the places the clean-up passes look at.  Returns (ops, reset_qubits, pattern names)."""
+    ops = gen_prep(rng, nq)
+    names = []
+    rq = set()
+
+    def some_gate(q):
+        name = ["h", "x", "sx", "ry", "s"][int(rng.integers(0, 5))]
+        return [name, [float(rng.uniform(0.3, 2.8))] if name[0] == "r" else [], [q], []]
+
+    for _ in range(int(rng.integers(1, 4))):
+        pat = int(rng.integers(0, 6))
+        q = int(rng.integers(0, nq))
+        rq.add(q)
+        if pat == 0:  # run of 2-3 resets in the middle, followed by a gate on the same qubit
+            pos = int(rng.integers(1, len(ops) + 1))
+            blk = [["x", [], [q], []]] + [["reset", [], [q], []] for _ in range(int(rng.integers(2, 4)))] + [some_gate(q)]
+            ops[pos:pos] = blk
+            names.append("run-mid")
+        elif pat == 1:  # run of resets at the end, then a gate
+            ops += [some_gate(q)] + [["reset", [], [q], []] for _ in range(int(rng.integers(2, 4)))] + [some_gate(q)]
+            names.append("run-end-gate")
+        elif pat == 2 and nq >= 2:  # reset followed only by two-qubit gates with q as SECOND operand
+            o = int(rng.choice([x for x in range(nq) if x != q]))
+            ops += [["x", [], [q], []], ["reset", [], [q], []], [["cz", "cx"][int(rng.integers(0, 2))], [], [o, q], []]]
+            names.append("reset-then-2q-second-operand")
+        elif pat == 3:  # initial resets
+            ops[0:0] = [["reset", [], [q], []] for _ in range(int(rng.integers(1, 3)))]
+            names.append("initial")
+        elif pat == 4:  # final reset(s)
+            ops += [some_gate(q)] + [["reset", [], [q], []] for _ in range(int(rng.integers(1, 4)))]
+            names.append("final")
+        else:  # single mid-circuit reset between gates, runs interleaved with another qubit's instructions
+            pos = int(rng.integers(1, len(ops) + 1))
+            o = int(rng.integers(0, nq))
+            ops[pos:pos] = [["reset", [], [q], []], some_gate(o), ["reset", [], [q], []], some_gate(q)]
+            names.append("interleaved")
+    return ops, sorted(rq), names
+
+
+GCE_FIXED = [  # hand-written members of the stream (the shapes named in the stream description)
+    dict(nq=1, prep=[["x", [], [0], []], ["reset", [], [0], []], ["reset", [], [0], []], ["reset", [], [0], []], ["h", [], [0], []]],
+         paulis=[[0, [1]], [0, [3]]]),
+    dict(nq=2, prep=[["h", [], [0], []], ["x", [], [1], []], ["reset", [], [1], []], ["cz", [], [0, 1], []]],
+         paulis=[[0, [1, 0]]]),
+    dict(nq=2, prep=[["h", [], [0], []], ["cx", [], [0, 1], []], ["reset", [], [0], []]], paulis=[[0, [3, 0]], [0, [0, 3]], [0, [3, 3]]]),
+    dict(nq=2, prep=[["reset", [], [0], []], ["ry", [0.9], [0], []], ["x", [], [1], []], ["reset", [], [1], []], ["reset", [], [1], []],
+                     ["cx", [], [0, 1], []], ["reset", [], [0], []]], paulis=[[0, [0, 3]], [0, [0, 0]], [0, [1, 3]]]),
+]
+
+
+def exec_gce(case):
+    """generate_cutting_experiments on an uncut circuit: one subexperiment per group of ObservableCollection(observables)."""
+    nq = case["nq"]
+    ctx, gh, gsx = fresh_ctx()
+    qc = build_circuit(dict(nq=nq, qregs=case.get("qregs"), cregs=[], ops=case["prep"]))
+    ref = reference_state(qc, case["prep"])
+    case["sv_expect"] = [float(np.real(ref.expectation_value(mk_pauli(0, p[1])))) for p in case["paulis"]]
+    obs = PauliList(mk_plist(case["paulis"]))
+    del _REC[:]
+    PauliList.group_commuting = _recording_group_commuting
+    try:
+        r = call_canon(generate_cutting_experiments, qc, obs, np.inf)
+    finally:
+        PauliList.group_commuting = _orig_group_commuting
+    case["unique"], case["oracle_groups"] = (_REC[0][0], _REC[0][1]) if _REC else (None, None)
+    if r[0] != "ok":
+        case["impl"] = [r[0], r[1]]
+        return case
+    try:
+        subexps, coeffs = r[1]
+        coeffs_c = [[float(c), getattr(t, "name", str(t))] for c, t in coeffs]
+        subs = []
+        for se in subexps:
+            m = canon_mc(ctx, se)
+            ops = [[d["op"][2], list(d["op"][3]), list(d["qs"]), list(d["cs"])] if d["op"][0] == "gate"
+                   else [d["op"][0], [], list(d["qs"]), list(d["cs"])] for d in m["data"]]
+            regs = [b for f, b in m["cregs"] if f]
+            subs.append(dict(nq=m["nq"], ops=ops, reg_bits=regs[0] if regs else None))
+    except Exception as e:  # noqa: BLE001
+        case["impl"] = ["crashed", f"result could not be read: {type(e).__name__}: {e}"]
+        return case
+    ro = call_canon(lambda: ObservableCollection(obs))
+    if ro[0] != "ok":
+        case["impl"] = [ro[0], f"ObservableCollection: {ro[1]}"]
+        return case
+    oc = ro[1]
+    groups = [canon_cog(g) for g in oc.groups]
+    lookup = [[canon_pauli(p), [[int(i), int(j)] for i, j in locs]] for p, locs in oc.lookup.items()]
+    for i, sb in enumerate(subs):  # the implementation's decoder on every outcome word of its own subexperiment
+        sb["proc"] = []
+        if i >= len(oc.groups) or sb["reg_bits"] is None or sb["nq"] != nq:
+            continue
+        try:
+            law = sim_circuit_law(nq, sb["ops"], sb["reg_bits"])
+        except ValueError as e:
+            sb["sim_error"] = str(e)
+            continue
+        for wd, _p in law:
+            rp = call_canon(_process_outcome, oc.groups[i], wd)
+            try:
+                sb["proc"].append([wd, [float(x) for x in rp[1]]] if rp[0] == "ok" else [wd, [rp[0], rp[1]]])
+            except Exception as e:  # noqa: BLE001
+                sb["proc"].append([wd, ["crashed", f"unreadable result: {e}"]])
+    case["impl"] = ["ok", dict(groups=groups, lookup=lookup, subexps=subs, coeffs=coeffs_c, after=[canon_cog(g) for g in oc.groups])]
+    return case
+
+
 def own_law(case):
     branches = sim_prepare(case["nq"], [(o[0], o[1], o[2]) for o in case["prep"]])
     return sim_register_law(branches, case["nq"], case["impl"][1]["suffix"], case["impl"][1]["reg_bits"])
@@ -782,6 +932,7 @@ def generate(rng, tier, outdir):
     n_phys = 160 if quick else 3000
     n_reuse = 150 if quick else 2500
     n_e2e = 60 if quick else 1200
+    n_gce = 140 if quick else 3000
     max_sim_n = 4 if quick else 6
 
     # the physics specification of Model/Measurement.v part B is the matrices qiskit uses
@@ -1148,6 +1299,51 @@ def generate(rng, tier, outdir):
     for it in range(n_e2e):
         em.guard("e2e", lambda: one_e2e(it))
 
+    # ---------------- generate_cutting_experiments on uncut circuits with resets ----------------
+    def one_gce(it):
+        if it < len(GCE_FIXED):
+            base = GCE_FIXED[it]
+            case = dict(kind="gce", nq=base["nq"], qregs=None, prep=[list(o) for o in base["prep"]], paulis=[list(p) for p in base["paulis"]])
+            names = ["fixed"]
+        else:
+            nq = int(rng.integers(1, 5))
+            prep, rq, names = gen_reset_prep(rng, nq)
+            cs, _ = gen_paulis(rng, nq)
+            cs = cs[:8]
+            r = int(rng.integers(0, 4))
+            if r == 0:  # every observable is identity on the reset qubits
+                for p in cs:
+                    for q in rq:
+                        p[1][q] = 0
+                names.append("identity-on-reset-qubits")
+            elif r == 1:  # the reset qubits are measured
+                for p in cs[: max(1, len(cs) // 2)]:
+                    for q in rq:
+                        p[1][q] = p[1][q] or int(rng.integers(1, 4))
+            case = dict(kind="gce", nq=nq, qregs=gen_qregs(rng, nq), prep=prep, paulis=cs)
+        case = exec_gce(case)
+        for nm in names:
+            w.count("gce.pattern", nm)
+        w.count("gce.nq", case["nq"])
+        w.count("gce.resets_in", sum(1 for o in case["prep"] if o[0] == "reset"))
+        impl = case["impl"]
+        usable = (impl[0] == "ok" and case["unique"] is not None and len(impl[1]["subexps"]) == len(impl[1]["groups"])
+                  and all(sb["reg_bits"] is not None and "sim_error" not in sb and sb["nq"] == case["nq"] for sb in impl[1]["subexps"]))
+        if not usable:
+            v = em.judged(case)
+            em.forced(case, f"generate_cutting_experiments result unusable: {str(impl)[:300]}; oracle says violates={v['violates']}")
+            return
+        w.count("gce.resets_out", sum(1 for sb in impl[1]["subexps"] for o in sb["ops"] if o[0] == "reset"))
+        laws = [[(Nc(wd), Qc(Fraction(p))) for wd, p in sim_circuit_law(case["nq"], sb["ops"], sb["reg_bits"])] for sb in impl[1]["subexps"]]
+        cs = case["paulis"]
+        em.add("gce", "chk_e2e",
+               (coq_plist(cs), coq_plist(case["unique"]), [coq_plist(g) for g in case["oracle_groups"]], laws,
+                [Qc(Fraction(e)) for e in case["sv_expect"]]),
+               case, nontrivial=True, key=("gce", it))
+
+    for it in range(n_gce):
+        em.guard("gce", lambda: one_gce(it))
+
     w.notes.append(f"physics/e2e: max |decoded - expectation| over all members/observables = {em.max_dev:.3e}")
     w.notes.append(f"forced cases: {em.nforced}")
 
@@ -1164,7 +1360,11 @@ def generate(rng, tier, outdir):
         "re-read after every step. physics: entangled random preparations (quick: 1..4 qubits, thorough: 1..6), one third ending with "
         "1-2 resets, suffix appended by the implementation, outcome law from the harness's own numpy simulator, expectation values from "
         "qiskit Statevector/DensityMatrix. e2e: collection -> every group -> suffix -> law -> implementation's _process_outcome on every "
-        "word -> lookup -> expectation of every original observable. judge runs on every generated case (contract "
+        "word -> lookup -> expectation of every original observable. gce: uncut preparations on 1..4 qubits with resets (runs of 2-3, "
+        "initial, final, mid-circuit, interleaved, followed only by two-qubit gates with the reset qubit as second operand; observables "
+        "identity on / acting on the reset qubits; 4 hand-written shapes first) through generate_cutting_experiments(.., inf); every "
+        "subexperiment (preparation + reset clean-up passes + suffix) simulated by the harness, decoded by _process_outcome + lookup, "
+        "compared with Tr(rho P) of the original circuit. judge runs on every generated case (contract "
         "judge_accepts_clean_case); flagged or impossible cases are duplicated as always-failing `forced` cases. distinct = distinct Coq "
         "case literal; non-trivial = successful call with >1 observable / non-empty measurement"
     )
@@ -1290,6 +1490,8 @@ def judge(case):
         return _judge_physics(case)
     if k == "e2e":
         return _judge_e2e(case)
+    if k == "gce":
+        return _judge_gce(case)
     raise ValueError(k)
 
 
@@ -1436,6 +1638,56 @@ def _judge_e2e(case):
     return dict(violates=False, max_dev=worst, detail=f"every observable's decoded expectation within {worst:.2e}")
 
 
+def _judge_gce(case):
+    impl, cs, nq = case["impl"], case["paulis"], case["nq"]
+    if impl[0] != "ok":
+        return dict(violates=True, detail=f"uncut circuit with a phase-free PauliList rejected: {impl}")
+    r = impl[1]
+    prob = _judge_collection_result(cs, r["groups"], r["lookup"])
+    if prob:
+        return dict(violates=True, detail=prob)
+    if r["after"] != r["groups"]:
+        return dict(violates=True, detail="groups changed by use")
+    if len(r["subexps"]) != len(r["groups"]):
+        return dict(violates=True, detail=f"{len(r['subexps'])} subexperiments for {len(r['groups'])} groups of an uncut circuit")
+    if len(r["coeffs"]) != 1 or abs(r["coeffs"][0][0] - 1.0) > TOL:
+        return dict(violates=True, detail=f"coefficients of an uncut circuit: {r['coeffs']}")
+    rho = sim_prepare(nq, [(o[0], o[1], o[2]) for o in case["prep"]])  # the ORIGINAL circuit
+    decoded = []
+    for gi, sb in enumerate(r["subexps"]):
+        if sb["reg_bits"] is None or sb["nq"] != nq:
+            return dict(violates=True, detail=f"subexperiment {gi} has no observable_measurements register / wrong width")
+        try:
+            law = sim_circuit_law(nq, sb["ops"], sb["reg_bits"])
+        except ValueError as e:
+            return dict(violates=True, detail=f"subexperiment {gi} = {sb['ops']} is not preparation + terminal measurements: {e}")
+        proc = {wd: vals for wd, vals in sb["proc"]}
+        masks = r["groups"][gi][3]
+        acc = [0.0] * len(masks)
+        for wd, p in law:
+            vals = proc.get(wd)
+            if vals is None:  # the recorded decoder output does not cover this word: decode with the recorded masks
+                vals = [float(1 - 2 * (bin(wd & mk).count("1") & 1)) for mk in masks]
+            if len(vals) != len(acc) or any(not isinstance(x, float) or x not in (1.0, -1.0) for x in vals):
+                return dict(violates=True, detail=f"group {gi}: _process_outcome on word {wd} gave {vals}")
+            for j, x in enumerate(vals):
+                acc[j] += p * x
+        decoded.append(acc)
+    lk = {_key(p): ls for p, ls in r["lookup"]}
+    worst = 0.0
+    for t, p in enumerate(cs):
+        got = r["coeffs"][0][0] * float(np.mean([decoded[i][j] for i, j in lk[_key(p)]]))
+        want = sim_pauli_expectation(rho, nq, p[1])
+        dev = max(abs(got - want), abs(got - case["sv_expect"][t]))
+        worst = max(worst, dev)
+        if dev > TOL:
+            i, j = lk[_key(p)][0]
+            return dict(violates=True, max_dev=worst,
+                        detail=f"observable {p}: {got!r} decoded from subexperiment {i} = {r['subexps'][i]['ops']}, but Tr(rho P) = {want!r} "
+                               f"(qiskit {case['sv_expect'][t]!r}) for the input circuit {[[o[0], o[2]] for o in case['prep']]}")
+    return dict(violates=False, max_dev=worst, detail=f"every observable's decoded expectation within {worst:.2e}")
+
+
 def rerun(case):
     k = case["kind"]
     if k == "harness_error":
@@ -1458,4 +1710,6 @@ def rerun(case):
         return exec_physics(case)
     if k == "e2e":
         return exec_e2e(case)
+    if k == "gce":
+        return exec_gce(case)
     raise ValueError(k)
